@@ -25,6 +25,7 @@ const VARIANTS: &[&str] = &[
     "truncated-payload",
     "conforming",
     "delivered-twice",
+    "redelivered-after-reapproval",
 ];
 
 fn deliver(u: &mut U, app: &Address, chain: &[u8], id: &[u8], src: &[u8], payload: &[u8]) -> CallOut<()> {
@@ -80,6 +81,7 @@ pub fn run(ctx: &Ctx, rep: &mut Report) {
                 order.truncate(3 + rng.usize(5));
                 order.push("conforming");
                 order.push("delivered-twice");
+                order.push("redelivered-after-reapproval");
                 let mut conforming_approved = false;
                 for variant in order {
                     // what is approved for this attempt, and what is delivered
@@ -138,6 +140,10 @@ pub fn run(ctx: &Ctx, rep: &mut Report) {
                         "conforming" => {
                             approved = Some(conforming.clone());
                             conforming_approved = true;
+                        }
+                        "redelivered-after-reapproval" => {
+                            // the very same approval is relayed again after the message was executed
+                            approved = Some(conforming.clone());
                         }
                         _ => {}
                     }
@@ -221,5 +227,5 @@ pub fn run(ctx: &Ctx, rep: &mut Report) {
     req.push("app:example".into());
     req.push("app:miniapp".into());
     rep.notes.insert("required".into(), json!(req));
-    rep.notes.insert("rule".into(), json!("per universe 3 rounds x 2 apps (the shipped Example, a minimal app using the interface's validate_message helper): for one conforming delivery, a random subset of 7 single deviations (never approved; approved for another app / payload / source address / id / chain; longer payload approved) is delivered first, then the conforming delivery, then the same delivery again; a delivery must succeed iff the gateway model holds an unexecuted approval of exactly (chain, id, source address, app, keccak(payload)); failed deliveries are diffed against the pre-state and must leave their approval intact. distinct = (app, variant, expectation, outcome)"));
+    rep.notes.insert("rule".into(), json!("per universe 3 rounds x 2 apps (the shipped Example, a minimal app using the interface's validate_message helper): for one conforming delivery, a random subset of 7 single deviations (never approved; approved for another app / payload / source address / id / chain; longer payload approved) is delivered first, then the conforming delivery, then the same delivery again, then once more after the same approval was relayed again; a delivery must succeed iff the gateway model holds an unexecuted approval of exactly (chain, id, source address, app, keccak(payload)); failed deliveries are diffed against the pre-state and must leave their approval intact. distinct = (app, variant, expectation, outcome)"));
 }
